@@ -135,6 +135,60 @@ def _read_in_loop(fn):
     return True
 
 
+def _stmts(fn):
+    """Statement-level shape of a function body (docstring dropped): one string per top-level
+    statement, `if` statements as `if <test>:<body joined by |>`."""
+    out = []
+    body = fn.body
+    if body and isinstance(body[0], ast.Expr) and isinstance(getattr(body[0], "value", None), ast.Constant) \
+            and isinstance(body[0].value.value, str):
+        body = body[1:]
+    for st in body:
+        if isinstance(st, ast.If) and not st.orelse:
+            out.append("if " + ast.unparse(st.test) + ":" + "|".join(ast.unparse(b) for b in st.body))
+        else:
+            out.append(ast.unparse(st).replace("\n", "|"))
+    return out
+
+
+def _property_src(cls, name):
+    """`name:<statements>` of a property / cached property of a class, found in the class's source."""
+    tree = ast.parse(textwrap.dedent(inspect.getsource(cls)))
+    for node in ast.walk(tree):
+        if isinstance(node, ast.FunctionDef) and node.name == name:
+            return name + ":" + "|".join(_stmts(node))
+    return name + ":?missing"
+
+
+def _import_info_shape(fn):
+    """make_cacheable_import_info: the `contexts` tuple, and the set comprehension clause by clause."""
+    out = []
+    comp = None
+    sort_key = "?"
+    for node in ast.walk(fn):
+        if isinstance(node, ast.Assign) and len(node.targets) == 1 and isinstance(node.targets[0], ast.Name) \
+                and node.targets[0].id == "contexts":
+            out.append("contexts=" + ast.unparse(node.value))
+        if isinstance(node, ast.Call) and isinstance(node.func, ast.Name) and node.func.id == "sorted" and node.args \
+                and isinstance(node.args[0], ast.SetComp):
+            comp = node.args[0]
+            sort_key = ",".join(f"{k.arg}={ast.unparse(k.value)}" for k in node.keywords)
+    # anything else that binds a name in the function body changes what the clauses mean
+    extra = [ast.unparse(st) for st in fn.body
+             if not (isinstance(st, ast.Expr) and isinstance(getattr(st, "value", None), ast.Constant))
+             and not (isinstance(st, ast.Assign) and ast.unparse(st.targets[0]) == "contexts")
+             and not isinstance(st, ast.Return)]
+    out += ["extra-statement:" + e for e in extra]
+    if comp is None:
+        return out + ["?no sorted(set comprehension) found"]
+    out.append("elt=" + ast.unparse(comp.elt))
+    for g in comp.generators:
+        out.append("for " + ast.unparse(g.target) + " in " + ast.unparse(g.iter))
+        out += ["if " + ast.unparse(c) for c in g.ifs]
+    out.append("sorted:" + sort_key)
+    return out
+
+
 def tables():
     import attrs
 
@@ -148,7 +202,25 @@ def tables():
     blocksize = inspect.signature(rh.hash_file_content).parameters["blocksize"].default
     gate = _fn_ast(ru.target_cache_file_is_up_to_date)
     fields = list(HashableArguments._fields)
-    return [
+    import rattr.config._types as ct
+    import rattr.module_locator.util as mlu
+    from rattr.models.symbol._util import PYTHON_BUILTINS_LOCATION
+
+    unwrap = lambda f: getattr(f, "__wrapped__", f)  # noqa: E731  (functools.cache)
+    option_sets = [_property_src(ct.Arguments, "excluded_imports"), _property_src(ct.Arguments, "excluded_names"),
+                   _property_src(ct.Config, "blacklist_patterns")]
+    deps = [
+        f"def importInfoShape : List String := {llist(_import_info_shape(_fn_ast(ru.make_cacheable_import_info)))}",
+        f"def optionSetSources : List String := {llist(option_sets)}",
+        f"def pipPatterns : List String := {llist([p.pattern for p in mlu.RE_PIP_INSTALL_LOCATIONS])}",
+        f"def blacklistShape : List String := {llist(_stmts(_fn_ast(unwrap(mlu.is_in_import_blacklist))))}",
+        f"def inPipShape : List String := {llist(_stmts(_fn_ast(unwrap(mlu.is_in_pip))))}",
+        f"def namesRightShape : List String := {llist(_stmts(_fn_ast(unwrap(mlu.iter_module_names_right))) + _stmts(_fn_ast(unwrap(mlu.derive_module_names_right))))}",
+        f"def safeOriginShape : List String := {llist(_stmts(_fn_ast(unwrap(mlu.__dict__['__safe_origin']))))}",
+        f"def builtinsLocation : String := {llist([PYTHON_BUILTINS_LOCATION])[1:-1]}",
+        f"def permanentBlacklist : List String := {llist(sorted(ct.Config.MODULE_BLACKLIST_PATTERNS))}",
+    ]
+    return deps + [
         f"def hashedArguments : List String := {llist(fields)}",
         f"def cacheFields : List String := {llist([f.name for f in attrs.fields(CacheableResults)])}",
         f"def importInfoFields : List String := {llist([f.name for f in attrs.fields(CacheableImportInfo)])}",
